@@ -15,7 +15,7 @@ EXPLANATION = (
     "sync and async, and compared with a 25-line reference resolver."
 )
 OUTSIDE = [
-    "chains deeper than 2 (thorough: 3; depth 4 only with define/omit/super choices) or with more than 2 block names",
+    "chains deeper than 3 (depth 4: quick with define/omit/super choices over one block name, thorough all 32^4) or with more than 2 block names",
     "block bodies other than literal tags + block.super + one nested block",
     "random larger chains (no sampling in this family)",
 ]
@@ -114,39 +114,54 @@ def _cfg(code: int) -> tuple[int, int, bool]:
 @cond(
     pre=["0 <= c1 < 32"],
     timeout=240,
-    shard={"c0": list(range(0, 32, 1))[:32:4] + [1, 2, 3, 18, 22, 27, 31]},
-    tiers=("quick",),
+    shard={"c0": list(range(32))},
     covers="chains of depth 1 and 2: output equals the reference resolution (most-derived override, block.super = next definition, nested block resolved by name, child text outside blocks discarded, required-not-overridden raises RequiredBlockError); sync == async; DictLoader and CachingDictLoader",
-    bounds="2 block names; per template 4 x 4 choices x nesting bit; leaf configuration from 15 shards, parent configuration all 32 (solver-enumerated); depth 1 checked with the leaf alone",
+    bounds="2 block names; per template 4 x 4 choices x nesting bit; all 32 x 32 configurations x 2 loaders (solver-enumerated); depth 1 checked with the leaf alone",
     grid=lambda: [(c0, c1, k) for c0 in (5, 10, 26, 15) for c1 in (5, 9, 21, 30, 0) for k in (False, True)],
 )
 def s_chain2(c0: int, c1: int, caching: bool) -> bool:
     c1 = concrete_int(c1, 0, 31)
-    return _chain_ok([_cfg(c0)], caching) and _chain_ok([_cfg(c0), _cfg(c1)], caching)
+    caching = bool(caching)
+    # every input is concrete from here on: the real code runs outside the tracer (the solver enumerates the structures)
+    return untraced(lambda: _chain_ok([_cfg(c0)], caching) and _chain_ok([_cfg(c0), _cfg(c1)], caching))
 
 
 @cond(
     pre=["0 <= c1 < 32", "0 <= c2 < 32"],
-    timeout=1500,
-    tiers=("thorough",),
+    timeout=600,
+    timeout_thorough=1500,
     shard={"c0": list(range(32))},
     covers="chains of depth 3, all 32^3 configurations, as s_chain2",
     bounds="2 block names x 3 templates x (4 x 4 x 2) choices",
 )
 def s_chain3(c0: int, c1: int, c2: int) -> bool:
-    return _chain_ok([_cfg(c0), _cfg(concrete_int(c1, 0, 31)), _cfg(concrete_int(c2, 0, 31))], False)
+    cfg = [_cfg(c0), _cfg(concrete_int(c1, 0, 31)), _cfg(concrete_int(c2, 0, 31))]
+    return untraced(lambda: _chain_ok(cfg, False))
 
 
 @cond(
     pre=["0 <= a < 3", "0 <= b < 3", "0 <= c < 3", "0 <= e < 3"],
-    timeout=600,
-    tiers=("thorough",),
+    timeout=300,
     shard={"a": [0, 1, 2]},
     covers="chains of depth 4 over one block name with omit/define/define+super per template",
     bounds="3^4 configurations",
 )
 def s_chain4(a: int, b: int, c: int, e: int) -> bool:
-    return _chain_ok([(a, 0, False), (concrete_int(b, 0, 2), 0, False), (concrete_int(c, 0, 2), 0, False), (concrete_int(e, 0, 2), 0, False)], False)
+    cfg = [(a, 0, False), (concrete_int(b, 0, 2), 0, False), (concrete_int(c, 0, 2), 0, False), (concrete_int(e, 0, 2), 0, False)]
+    return untraced(lambda: _chain_ok(cfg, False))
+
+
+@cond(
+    pre=["0 <= c1 < 32", "0 <= c2 < 32", "0 <= c3 < 32"],
+    timeout=3000,
+    tiers=("thorough",),
+    shard={"c0": list(range(32))},
+    covers="chains of depth 4 over both block names, all 32^4 configurations, as s_chain2",
+    bounds="2 block names x 4 templates x (4 x 4 x 2) choices",
+)
+def s_chain4_full(c0: int, c1: int, c2: int, c3: int) -> bool:
+    cfg = [_cfg(c0), _cfg(concrete_int(c1, 0, 31)), _cfg(concrete_int(c2, 0, 31)), _cfg(concrete_int(c3, 0, 31))]
+    return untraced(lambda: _chain_ok(cfg, False))
 
 
 ERRORS = [
@@ -172,15 +187,20 @@ ERRORS = [
 )
 def s_errors(i: int, caching: bool) -> bool:
     sources, want = ERRORS[concrete_int(i, 0, len(ERRORS) - 1)]
-    env = Environment(loader=(CachingDictLoader if caching else DictLoader)(dict(sources)))
-    for is_async in (False, True):
-        try:
-            got = _observe(env, is_async)[0]
-        except Exception:  # noqa: BLE001
-            return False
-        if got != want:
-            return False
-    return True
+    caching = bool(caching)
+
+    def run() -> bool:
+        env = Environment(loader=(CachingDictLoader if caching else DictLoader)(dict(sources)))
+        for is_async in (False, True):
+            try:
+                got = _observe(env, is_async)[0]
+            except Exception:  # noqa: BLE001
+                return False
+            if got != want:
+                return False
+        return True
+
+    return untraced(run)
 
 
 ENTERED = [
@@ -192,32 +212,36 @@ ENTERED = [
 @cond(
     pre=["0 <= c1 < 32", "0 <= via < len(ENTERED)"],
     timeout=300,
-    shard={"c0": [5, 6, 7, 9, 15, 26]},
+    shard={"c0": list(range(32))},
     covers="chains entered through include/render (twice, and inside a loop): every occurrence renders the reference page",
-    bounds="depth 2; leaf configuration from 6 shards x all 32 parent configurations x 4 entry shapes",
+    bounds="depth 2; all 32 x 32 configurations x 4 entry shapes",
     grid=lambda: [(5, 9, v) for v in range(len(ENTERED))] + [(26, 21, 0), (7, 13, 2)],
 )
 def s_entered(c0: int, c1: int, via: int) -> bool:
     c1 = concrete_int(c1, 0, 31)
     via = concrete_int(via, 0, len(ENTERED) - 1)
     cfg = [_cfg(c0), _cfg(c1)]
-    sources = build_sources(cfg)
-    try:
-        page = reference(cfg)
-        want = ("ok", ENTERED[via].replace("{% include 'T0' %}", page).replace("{% render 'T0' %}", page))
-        if via == 3:
-            want = ("ok", page * 2)
-    except _Required:
-        want = ("required", None)
-    sources["main"] = ENTERED[via]
-    env = Environment(loader=DictLoader(sources))
-    try:
-        got = ("ok", env.get_template("main").render())
-    except RequiredBlockError:
-        got = ("required", None)
-    except LiquidError:
-        return False
-    return got == want
+
+    def run() -> bool:
+        sources = build_sources(cfg)
+        try:
+            page = reference(cfg)
+            want = ("ok", ENTERED[via].replace("{% include 'T0' %}", page).replace("{% render 'T0' %}", page))
+            if via == 3:
+                want = ("ok", page * 2)
+        except _Required:
+            want = ("required", None)
+        sources["main"] = ENTERED[via]
+        env = Environment(loader=DictLoader(sources))
+        try:
+            got = ("ok", env.get_template("main").render())
+        except RequiredBlockError:
+            got = ("required", None)
+        except LiquidError:
+            return False
+        return got == want
+
+    return untraced(run)
 
 
 @cond(pre=["0 <= c1 < 32"], twin=True, timeout=60, covers="reachability twin: overrides do change the page")
@@ -259,17 +283,21 @@ def _family_view(env: Environment, leaf: str, is_async: bool):
     pre=["0 <= ca < 8", "0 <= cc < 4", "0 <= l2 < 4"],
     timeout=300,
     timeout_thorough=1200,
-    shard={"cb": [3, 7, 11, 15], "l1": [0, 1, 2, 3]},
-    shard_thorough={"cb": [1, 3, 5, 7, 9, 11, 13, 15], "l1": [0, 1, 2, 3]},
+    shard={"cb": list(range(16)), "l1": [0, 1, 2, 3]},
     covers="templates of one family (base, two children, a grandchild) loaded through one CachingDictLoader: rendering leaf l1 and then leaf l2 gives, for l2, exactly what a fresh Environment gives (block stacks, `required` flags and parent links resolved for one chain never influence another chain or a later render of the parent itself), sync and async",
-    bounds="base configuration from 4 (thorough 8) shards (all define x, some required), children 8 x 4 configurations (no nesting), ordered pairs of 4 leaves",
+    bounds="all 16 base configurations without nesting, children 8 x 4 configurations, ordered pairs of 4 leaves, sync/async",
     grid=lambda: [(cb, ca, cc, l1, l2, a) for cb in (3, 15, 7) for ca in (1, 0, 6) for cc in (0, 3) for l1 in range(4) for l2 in range(4) for a in (False, True)],
 )
 def s_family(cb: int, ca: int, cc: int, l1: int, l2: int, is_async: bool) -> bool:
     ca, cc = concrete_int(ca, 0, 7), concrete_int(cc, 0, 3)
     l2 = concrete_int(l2, 0, 3)
-    sources = _family_sources(cb, ca, cc)
-    shared = untraced(lambda: Environment(loader=CachingDictLoader(dict(sources))))
-    fresh = untraced(lambda: Environment(loader=DictLoader(dict(sources))))
-    _family_view(shared, LEAVES[l1], False)
-    return _family_view(shared, LEAVES[l2], is_async) == _family_view(fresh, LEAVES[l2], is_async)
+    is_async = bool(is_async)
+
+    def run() -> bool:
+        sources = _family_sources(cb, ca, cc)
+        shared = Environment(loader=CachingDictLoader(dict(sources)))
+        fresh = Environment(loader=DictLoader(dict(sources)))
+        _family_view(shared, LEAVES[l1], False)
+        return _family_view(shared, LEAVES[l2], is_async) == _family_view(fresh, LEAVES[l2], is_async)
+
+    return untraced(run)
